@@ -1078,6 +1078,10 @@ func genGoMiniAll() []*leanFile {
 		[]string{cl + "commitlog.go", cl + "segment.go"},
 		map[string][]string{cl + "commitlog.go": {"commitLog.checkAndPerformSplit"}, cl + "segment.go": {"segment.CheckSplit", "segment.NextOffset"}},
 		clConsts)})
+	out = append(out, &leanFile{name: "GoSegFiles", raw: genGoMini("GoSegFiles",
+		[]string{cl + "segment.go"},
+		map[string][]string{cl + "segment.go": {"segment.Replace", "segment.WriteMessageSet", "segment.write", "segment.newSuffixed"}},
+		clConsts)})
 	out = append(out, &leanFile{name: "GoHWPos", raw: genGoMini("GoHWPos",
 		[]string{cl + "reader.go"},
 		map[string][]string{cl + "reader.go": {"getHWPos"}},
